@@ -171,6 +171,10 @@ func (op *HubOp) val(env *Env) V {
 		return L(I(6))
 	case 8:
 		return L(I(8))
+	case 9:
+		return L(I(9))
+	case 10:
+		return L(I(10))
 	default:
 		var toks, hs, ps []V
 		for _, t := range op.Tokens {
@@ -238,6 +242,15 @@ func (r *HubRun) exec(op *HubOp) (int64, string) {
 		return outcome(func() error { mhub2.BeginBlocker(env.Ctx, env.K); return nil })
 	case 6:
 		return outcome(func() error { mhub2.EndBlocker(env.Ctx, env.K); return nil })
+	case 9:
+		return env.Tx(nil, func(ctx sdk.Context) error {
+			env.K.SetTokenInfos(ctx, &types.TokenInfos{TokenInfos: op.Tokens})
+			_ = env.K.GetTokenInfos(ctx)
+			return fmt.Errorf("proposal failed after writing the token list")
+		})
+	case 10:
+		env.Wire()
+		return 0, ""
 	case 8:
 		code, m := outcome(func() error { env.Restart(); return nil })
 		if code != 0 && os.Getenv("VERIF_DEBUG") != "" {
